@@ -79,8 +79,11 @@ class C01(Prop):
             n = rng.randint(2, 9)
             ys = [Fraction(rng.randint(0, 6))] + [Fraction(rng.randint(0, 24), 4) for _ in range(n - 1)]
             w = None if rng.random() < 0.4 else [Fraction(rng.randint(1, 3))] + [Fraction(rng.randint(2, 12), 4) for _ in range(n - 1)]
+            X = list(range(n))
+            if rng.random() < 0.5:
+                X = sorted(rng.randint(0, max(1, n // 2)) for _ in range(n))  # ties in X: equal X must get the WEIGHTED mean of their y
             yield {"stream": "class_list", "f": "mean", "level": "1/2", "inc": rng.random() < 0.5, "npint_first": rng.random() < 0.7,
-                   "y": [str(v) for v in ys], "w": None if w is None else [str(v) for v in w]}
+                   "X": X, "y": [str(v) for v in ys], "w": None if w is None else [str(v) for v in w]}
         for k in range(300 if tier == "quick" else 3000):
             n = rng.randint(1, 40)
             yield {"stream": "pava", "f": "mean", "level": "1/2", "inc": True, "y": ic.gen_y(rng, n), "w": ic.gen_w(rng, n, allow_none=False)}
@@ -97,7 +100,7 @@ class C01(Prop):
                 return out
 
             y, w = as_list(case["y"]), None if case["w"] is None else as_list(case["w"])
-            X = [float(i) for i in range(len(y))]
+            X = [float(v) for v in case.get("X", range(len(y)))]
             try:
                 m = IsotonicRegression(increasing=case["inc"], functional="mean").fit(X, y, sample_weight=w)
                 x = m.predict(np.array(X))
@@ -132,16 +135,32 @@ class C01(Prop):
         return ic.call_iso(case)
 
     def model_request(self, case):
+        if case["stream"] == "class_list":
+            X = case.get("X", list(range(len(case["y"]))))
+            return {"op": "isofit", "f": "mean", "level": "1/2", "inc": case["inc"], "X": [str(v) for v in X],
+                    "y": enc_list(Fraction(v) for v in case["y"]), "w": None if case["w"] is None else enc_list(Fraction(v) for v in case["w"]),
+                    "q": [str(v) for v in X]}
         if case["stream"] == "pava":
             return {"op": "pava", "y": enc_list(Fraction(v) for v in case["y"]), "w": enc_list(Fraction(v) for v in case["w"])}
         return ic.iso_request(case)
 
     def compare(self, case, io, mo):
+        if case["stream"] == "class_list":
+            if "err" in io or "err" in mo:
+                return None if ("err" in io) == ("err" in mo) else f"outcome differs: implementation {io.get('err', 'ok')} ({io.get('msg', '')}) vs model {mo.get('err', 'ok')}"
+            from .core import close, dec_list
+
+            for i, (a, b) in enumerate(zip(io["x"], dec_list(mo["pred"]))):
+                if not close(a, b, 1e-9, 1e-9 * ic.data_scale(case)):
+                    return f"prediction of the fitted model at training row {i} (X={case.get('X', [i] * (i + 1))[i]}): {a!r}, model {float(b)!r}"
+            return None
         return ic.compare_xr(io, mo, exact=case["stream"] == "exact", with_r=False, scale=ic.data_scale(case), ylocal=case["y"])  # r is C12's business
 
     def oracle(self, case, io):
         if "err" in io:
             return f"valid input rejected with {io['err']}"
+        if case["stream"] == "class_list" and len(set(case.get("X", []))) < len(case.get("X", [])):
+            return None  # ties in X: the reference is the model's fit among functions of X (compare); C11 has the exact oracle
         ys = [Fraction(v) for v in case["y"]]
         n = len(ys)
         ws = [Fraction(1)] * n if case.get("w") is None else [Fraction(v) for v in case["w"]]
